@@ -85,6 +85,7 @@ def interpolate(x, y, new_x, method='linear', **kwargs):
         return CubicSpline(x, y, **kwargs)(new_x)
     elif method == 'spline':
         return BSpline(*splrep(x, y, **kwargs))(new_x)
+    raise ValueError(f"Unknown interpolation method: {method}")
 
 
 def repeat(x, y, repeats: int) -> tuple[np.ndarray, np.ndarray]:
